@@ -17,12 +17,16 @@
 (***************************************************************************)
 EXTENDS Naturals, Integers, Sequences, FiniteSets, TLC
 
-CONSTANTS MaxRows
+CONSTANTS MaxRows,
+          CheckBounds    \* TRUE: a negative from_idx and a chunk size below 1 are refused (this tree); FALSE: the behaviour before
+                         \* that repair - no chunk is cut for a chunk size below 1 and the write ends without rows
+
+NoChunk == 100           \* input_chunk_size = None
 
 VARIABLES
   total,     \* rows in the source
   from, to,  \* window (to = -1: open ended)
-  chunk,     \* input_chunk_size (0 = None)
+  chunk,     \* input_chunk_size (NoChunk = None; 0 and negative values are what a caller may pass by mistake)
   kind,      \* "copy" | "fast"
   pc,        \* "init" | "gen" | "done" | "raised"
   nrows,     \* SourceDataWrapper._n_rows
@@ -38,9 +42,9 @@ vars == << total, from, to, chunk, kind, pc, nrows, full, rem, ci, pending, out,
 
 Init ==
   /\ total \in 1..MaxRows
-  /\ from \in 0..MaxRows
+  /\ from \in (-2)..MaxRows
   /\ to \in {-1} \cup (0..(MaxRows + 1))
-  /\ chunk \in 0..(MaxRows + 1)
+  /\ chunk \in {NoChunk} \cup ((-2)..(MaxRows + 1))
   /\ kind \in {"copy", "fast"}
   /\ pc = "init" /\ nrows = 0 /\ full = 0 /\ rem = 0 /\ ci = 0 /\ pending = << >> /\ out = << >> /\ i = 0
   /\ aliased = FALSE /\ written = FALSE
@@ -51,10 +55,12 @@ ToIdx == IF to = -1 THEN total ELSE to
 Setup ==
   /\ pc = "init"
   /\ LET n == ToIdx - from IN
-     IF from >= total \/ n < 1
+     IF from >= total \/ n < 1 \/ (CheckBounds /\ (from < 0 \/ (chunk # NoChunk /\ chunk < 1)))
      THEN pc' = "raised" /\ UNCHANGED << nrows, full, rem >>
+     ELSE IF chunk # NoChunk /\ chunk < 1
+     THEN pc' = "done" /\ UNCHANGED << nrows, full, rem >>      \* (historical) divmod by a negative size: no chunk, no rows, no error
      ELSE /\ nrows' = n
-          /\ IF chunk = 0 THEN full' = 1 /\ rem' = 0
+          /\ IF chunk = NoChunk THEN full' = 1 /\ rem' = 0
              ELSE full' = n \div chunk /\ rem' = n % chunk
           /\ pc' = "gen"
   /\ UNCHANGED << total, from, to, chunk, kind, ci, pending, out, i, aliased, written >>
@@ -64,7 +70,7 @@ ChunkRows(start, stop) == [k \in 1..(stop - start) |-> from + start + k - 1]
 
 LoadChunk ==
   /\ pc = "gen" /\ pending = << >> /\ i < nrows
-  /\ LET c == IF chunk = 0 THEN nrows ELSE chunk
+  /\ LET c == IF chunk = NoChunk THEN nrows ELSE chunk
          start == ci * c
          stop  == IF ci < full THEN (ci + 1) * c ELSE nrows
      IN IF stop > nrows \/ stop < start \/ from + stop > total
@@ -92,7 +98,8 @@ Next == Setup \/ LoadChunk \/ NextFrameData \/ Finish
 Spec == Init /\ [][Next]_vars
 
 (* ======================= obligations ===================================== *)
-ValidWindow == from < total /\ ToIdx <= total /\ ToIdx - from >= 1
+ValidWindow == from >= 0 /\ from < total /\ ToIdx <= total /\ ToIdx - from >= 1
+ValidChunk  == chunk = NoChunk \/ chunk >= 1
 
 (* C03 / C11: exactly the rows of the window, in order, numbered from 1     *)
 WindowRows ==
@@ -100,10 +107,10 @@ WindowRows ==
                  /\ \A k \in DOMAIN out : out[k].row = from + k - 1 /\ out[k].fno = k
 
 (* C10 / C11: a valid window is always served, whatever the chunk size and the path *)
-Served == ValidWindow => pc # "raised"
+Served == (ValidWindow /\ ValidChunk) => pc # "raised"
 
 (* an invalid window never yields records                                   *)
-Rejected == (~ValidWindow /\ pc \in {"done"}) => FALSE
+Rejected == (~(ValidWindow /\ ValidChunk) /\ pc \in {"done"}) => FALSE
 
 (* rows are only handed out in order (also in intermediate states)          *)
 InOrder == \A k \in DOMAIN out : out[k].row = from + k - 1 /\ out[k].fno = k
